@@ -16,7 +16,7 @@
 (***************************************************************************)
 EXTENDS Naturals, Sequences, FiniteSets, TLC, Json
 
-CONSTANTS Scenarios,   \* sequence of [ops: Seq([op, p, v]), waiters: set of names, calls: Nat, cancel: BOOLEAN]
+CONSTANTS Scenarios,   \* sequence of [ops: Seq([op, p, v]), waiters: set of names, calls: Nat, cancel: "none" | "all" | a waiter name]
           Peers,
           Impl
 
@@ -27,7 +27,7 @@ VARIABLES si,
           opi, upc,           \* updater: index of current op, pc
           wpc, cur, wgen, wok, wcalls,
           rets,               \* history: [waiter -> Seq([upd: set, ok: BOOLEAN])]
-          done,               \* ctx cancelled
+          done,               \* set of waiters whose ctx is cancelled
           cpc,                \* canceller pc
           h
 vars == <<si, mS, L, status, assoc, open, gen, closed, opi, upc, wpc, cur, wgen, wok, wcalls, rets, done, cpc, h>>
@@ -51,8 +51,8 @@ Init == /\ si \in DOMAIN Scenarios
         /\ wok = [w \in Scenarios[si].waiters |-> TRUE]
         /\ wcalls = [w \in Scenarios[si].waiters |-> 0]
         /\ rets = [w \in Scenarios[si].waiters |-> <<>>]
-        /\ done = FALSE
-        /\ cpc = IF Scenarios[si].cancel THEN "start" ELSE "none"
+        /\ done = {}          \* waiters whose context has been cancelled
+        /\ cpc = IF Scenarios[si].cancel # "none" THEN "start" ELSE "none"
         /\ h = <<>>
 
 Sched(t, to) == UNCHANGED si /\ h' = Append(h, [d |-> t, act |-> "step", to |-> to])
@@ -147,8 +147,8 @@ W4(w) == /\ wpc[w] = "W4"
 \* gate select{ctx.Done | signal}: take a ready case (either, if both are ready) or park
 W5(w) == /\ wpc[w] = "W5"
          /\ \/ /\ wgen[w] \in closed /\ wok' = [wok EXCEPT ![w] = TRUE] /\ wpc' = [wpc EXCEPT ![w] = "W6"]
-            \/ /\ done /\ wok' = [wok EXCEPT ![w] = FALSE] /\ wpc' = [wpc EXCEPT ![w] = "W6"]
-            \/ /\ wgen[w] \notin closed /\ ~done /\ wpc' = [wpc EXCEPT ![w] = "Wp"] /\ UNCHANGED wok
+            \/ /\ w \in done /\ wok' = [wok EXCEPT ![w] = FALSE] /\ wpc' = [wpc EXCEPT ![w] = "W6"]
+            \/ /\ wgen[w] \notin closed /\ w \notin done /\ wpc' = [wpc EXCEPT ![w] = "Wp"] /\ UNCHANGED wok
          /\ UNCHANGED <<mS, L, open, gen, closed, cur, wgen, wcalls, rets>> /\ WUnch /\ Sched(w, wpc'[w])
 \* gate Lock(notify.L) at the end of Notify.Wait; then loop or give up
 W6(w) == /\ wpc[w] = "W6" /\ L = "none"
@@ -160,9 +160,10 @@ W6(w) == /\ wpc[w] = "W6" /\ L = "none"
 CStart == /\ cpc = "start" /\ cpc' = "c_cancel"
           /\ UNCHANGED <<mS, L, status, assoc, open, gen, closed, opi, upc, wpc, cur, wgen, wok, wcalls, rets, done>> /\ Sched(Canc, "c_cancel")
 \* a waiter parked in the select is woken with ok = FALSE
-Cancel == /\ cpc = "c_cancel" /\ cpc' = "done" /\ done' = TRUE
-          /\ wpc' = [w \in Waiters |-> IF wpc[w] = "Wp" THEN "W6" ELSE wpc[w]]
-          /\ wok' = [w \in Waiters |-> IF wpc[w] = "Wp" THEN FALSE ELSE wok[w]]
+Targets == IF Sc.cancel = "all" THEN Waiters ELSE {Sc.cancel} \cap Waiters
+Cancel == /\ cpc = "c_cancel" /\ cpc' = "done" /\ done' = Targets
+          /\ wpc' = [w \in Waiters |-> IF wpc[w] = "Wp" /\ w \in Targets THEN "W6" ELSE wpc[w]]
+          /\ wok' = [w \in Waiters |-> IF wpc[w] = "Wp" /\ w \in Targets THEN FALSE ELSE wok[w]]
           /\ UNCHANGED <<mS, L, status, assoc, open, gen, closed, opi, upc, cur, wgen, wcalls, rets>> /\ Sched(Canc, "done")
 
 Next == \/ UStart \/ A1 \/ A2 \/ A2b \/ A3 \/ U1 \/ U1L \/ U2
@@ -177,7 +178,7 @@ AtLockGate(w) == wpc[w] \in {"W1", "W2", "W3", "W6"}
 NoDeadlock == Quiescent => /\ upc = "done"
                            /\ \A w \in Waiters : wpc[w] \in {"done", "Wp"}
 NoMissedUpdate == Quiescent => \A w \in Waiters : wpc[w] = "Wp" => \A p \in assoc : cur[w][p] = status[p]
-CancelReleases == (Quiescent /\ done) => \A w \in Waiters : wpc[w] = "done"
+CancelReleases == Quiescent => \A w \in done : wpc[w] = "done"
 \* script generation
 Dump == Quiescent => PrintT(<<"SCRIPT", ToJson(h \o <<[d |-> "-", act |-> "final", to |-> "-", si |-> si,
                                    stuck |-> {w \in Waiters : wpc[w] # "done"}, upc |-> upc]>>)>>)
